@@ -2039,13 +2039,100 @@ fn lattice(x: &mut Ctx) {
     x.r.count("lattice_cases", n);
 }
 
+/// Small hand-written requests, run first by shard 0 (and printed by `--repro 1`): the plainest
+/// member of every situation the property text singles out.
+fn pinned_cases() -> Vec<(&'static str, Case)> {
+    let base = Case {
+        net: NetSpec::Local(10, Some(100)),
+        target: 200,
+        anchor: 144,
+        interval: 144,
+        t_in: vec![],
+        t_out: vec![],
+        s_in: vec![],
+        s_out: vec![],
+        s_required: false,
+        o_in: vec![],
+        o_out: vec![],
+        o_ver: 3,
+        i_in: vec![],
+        i_out: vec![],
+        eph: None,
+        multi: None,
+        rule: RuleSpec::Standard,
+        fallback: Pool::S,
+        dust_action: 0,
+        dust_threshold: None,
+        memo: false,
+        tcp_allowed: false,
+        placement: "pinned",
+    };
+    let mut v = vec![];
+    // split change: total 6000 >= threshold 5000, two outputs of 3000 each
+    let mut c = base.clone();
+    c.s_in = vec![61_000];
+    c.s_out = vec![40_000];
+    c.multi = Some(Multi { target: 2, min_split: Some(1000), meta: [Some((0, 0)), None, None] });
+    v.push(("split-change-under-reject", c));
+    // canonical crossing look-alike plus an ephemeral (ZIP 320) output
+    let mut c = base.clone();
+    c.o_in = vec![1_170_000];
+    c.i_out = vec![1_000_000];
+    c.eph = Some((false, 50_000));
+    v.push(("canonical-crossing-with-ephemeral-output", c));
+    // the same without the ephemeral output: a canonical crossing, unpadded Ironwood bundle
+    let mut c = base.clone();
+    c.o_in = vec![1_115_000];
+    c.i_out = vec![1_000_000];
+    v.push(("canonical-crossing", c));
+    // transparent change allowed, inputs == outputs + fee of the shape with a change output
+    let mut c = base.clone();
+    c.tcp_allowed = true;
+    c.t_in = vec![TIn { value: 115_000, size: TSize::P2pkhDefault }];
+    c.t_out = vec![TOut { value: 50_000, script_len: 25 }, TOut { value: 50_000, script_len: 25 }];
+    v.push(("zero-transparent-change", c));
+    // Orchard outputs requested after NU6.3, funded partly from Sapling
+    let mut c = base.clone();
+    c.o_in = vec![100_000];
+    c.o_out = vec![80_000];
+    c.s_in = vec![60_000];
+    v.push(("orchard-outputs-after-nu6_3", c));
+    // turnstile: Orchard note plus Sapling funding, change bound == Orchard input total
+    let mut c = base.clone();
+    c.o_in = vec![100_000];
+    c.s_in = vec![60_000];
+    c.s_out = vec![40_000];
+    v.push(("turnstile-change-bound-equals-orchard-inputs", c));
+    let mut c = base.clone();
+    c.o_in = vec![100_000];
+    c.s_in = vec![59_999];
+    c.s_out = vec![40_000];
+    v.push(("turnstile-change-bound-below-orchard-inputs", c));
+    v
+}
+
 fn main() {
     vh_common::install_panic_hook();
     let args = Args::parse();
+    if args.extra.contains_key("repro") {
+        for (name, c) in pinned_cases() {
+            let res = guard(|| call_real(&c));
+            let outcome = match &res {
+                Ok(Ok(b)) => show_balance(b),
+                Ok(Err(e)) => format!("Err({e:?})"),
+                Err(p) => format!("panic: {p}"),
+            };
+            println!("{name}\n  case: {}\n  outcome: {outcome}", c.to_json());
+        }
+        return;
+    }
     let mut x = Ctx {
         r: Reporter::new("C07", &args),
     };
     if args.shard == 0 {
+        for (_, c) in pinned_cases() {
+            run_case(&mut x, &c);
+        }
         lattice(&mut x);
     }
     let mut rng = vh_common::rng(args.shard_seed(), 7);
